@@ -2,6 +2,7 @@ package props
 
 import (
 	"bufio"
+	"bytes"
 	"encoding/json"
 	"errors"
 	"fmt"
@@ -25,15 +26,17 @@ func init() { register("C06", C06) }
 
 // c06scn describes one shutdown scenario.
 type c06scn struct {
-	Idx      int    `json:"idx"`
-	Kind     string `json:"kind"`    // fini suspend cycle
-	EvFill   int    `json:"evfill"`  // events sitting in the event queue
-	KeyFill  int    `json:"keyfill"` // -1: main loop idle; >=0: main loop parked on a full event queue with this many chunks queued
-	Parked   bool   `json:"parked"`  // reader parked on the send after a full chunk queue
-	Reader   string `json:"reader"`  // read gate readerr
-	Conc     string `json:"conc"`    // none poller poster show resize
-	Sched    int64  `json:"sched"`   // 0: no perturbation; else seed of the schedule controller
-	DrainNil bool   `json:"drainnil"`
+	Idx       int    `json:"idx"`
+	Kind      string `json:"kind"`    // fini suspend cycle
+	EvFill    int    `json:"evfill"`  // events sitting in the event queue
+	KeyFill   int    `json:"keyfill"` // -1: main loop idle; >=0: main loop parked on a full event queue with this many chunks queued
+	Parked    bool   `json:"parked"`  // reader parked on the send after a full chunk queue
+	Reader    string `json:"reader"`  // read gate readerr
+	Conc      string `json:"conc"`    // none poller poster show resize
+	Sched     int64  `json:"sched"`   // 0: no perturbation; else seed of the schedule controller
+	DrainNil  bool   `json:"drainnil"`
+	PreResume bool   `json:"preresume,omitempty"` // a redundant Resume() on the running screen first
+	Stall     bool   `json:"stall,omitempty"`     // main loop held up > 50 ms by a slow redraw with a partial sequence buffered and more input queued
 }
 
 func (s c06scn) String() string {
@@ -245,10 +248,10 @@ func c06run(sn c06scn) (res c06res) {
 	}
 	s.PollEvent()
 	_, evCap, _, keyCap := levels()
-	if sn.EvFill > evCap {
+	if sn.EvFill > evCap && sn.Kind != "racefill" {
 		sn.EvFill = evCap
 	}
-	for i := 0; i < sn.EvFill; i++ {
+	for i := 0; i < sn.EvFill && sn.Kind != "racefill"; i++ {
 		if err := s.PostEvent(tcell.NewEventInterrupt(i)); err != nil {
 			return incon("could not fill the event queue")
 		}
@@ -309,6 +312,27 @@ func c06run(sn c06scn) (res c06res) {
 			return incon("reader did not take input")
 		}
 	}
+	if sn.PreResume {
+		// refused ("already engaged"), and must change nothing
+		_ = s.Resume()
+	}
+	if sn.Stall {
+		if !feedOK([]byte("\x1b")) {
+			return incon("reader did not take input")
+		}
+		for i := 0; i < 300; i++ {
+			runtime.Gosched()
+		}
+		atomic.StoreInt64(&ft.WriteDelayNS, int64(90*time.Millisecond))
+		ft.SetSize(21, 6)
+		ft.NotifyNow()
+		spinUntil(func() bool { return atomic.LoadInt32(&ft.InDelay) > 0 })
+		feedOK([]byte("[A"))
+		feedOK([]byte("x"))
+		atomic.StoreInt64(&ft.WriteDelayNS, 0)
+		// let the main loop come back from the redraw and take its next branch
+		time.Sleep(120 * time.Millisecond)
+	}
 	// concurrent actors
 	var stop int32
 	var actors sync.WaitGroup
@@ -344,6 +368,32 @@ func c06run(sn c06scn) (res c06res) {
 			case <-time.After(time.Millisecond):
 			}
 		})
+	case "flood":
+		// two posters and a stream of input, nobody polling: the queue stays saturated
+		for p := 0; p < 2; p++ {
+			n := 0
+			startActor(func() { n++; _ = s.PostEvent(tcell.NewEventInterrupt(n)) })
+		}
+		startActor(func() {
+			select {
+			case ft.FeedC() <- []byte("abc"):
+			case <-time.After(time.Millisecond):
+			}
+		})
+		// a consumer drains in bursts for a while (so that the queue keeps crossing
+		// between "room" and "full"), then stops polling for good before the shutdown
+		var stopDrain int32
+		go func() {
+			for atomic.LoadInt32(&stopDrain) == 0 {
+				for s.HasPendingEvent() && atomic.LoadInt32(&stopDrain) == 0 {
+					s.PollEvent()
+				}
+				runtime.Gosched()
+			}
+		}()
+		time.Sleep(40 * time.Millisecond)
+		atomic.StoreInt32(&stopDrain, 1)
+		time.Sleep(5 * time.Millisecond)
 	case "poster":
 		n := 0
 		startActor(func() { n++; _ = s.PostEvent(tcell.NewEventInterrupt(n)); runtime.Gosched() })
@@ -521,6 +571,62 @@ func c06run(sn c06scn) (res c06res) {
 	}
 
 	switch sn.Kind {
+	case "racefill":
+		// many tries of: the event queue one short of full, then an input event and a
+		// PostEvent racing for the last slot with nobody polling, then Suspend
+		tries := sn.EvFill
+		for try := 0; try < tries; try++ {
+			for s.HasPendingEvent() {
+				s.PollEvent()
+			}
+			// room for exactly k input events; the posters fire the moment the first of
+			// them has landed, i.e. while the input path is still sending the rest
+			k := 1 + try%48
+			base := evCap - k
+			for i := 0; i < base; i++ {
+				_ = s.PostEvent(tcell.NewEventInterrupt(i))
+			}
+			var stopSpin atomic.Bool
+			var pw sync.WaitGroup
+			for p := 0; p < 2; p++ {
+				pw.Add(1)
+				go func(p int) {
+					defer pw.Done()
+					for !stopSpin.Load() {
+						if n, _, _, _, _ := tcell.VerifQueueLevels(s); n > base+p {
+							break
+						}
+					}
+					_ = s.PostEvent(tcell.NewEventInterrupt(-1))
+				}(p)
+			}
+			feedOK(bytes.Repeat([]byte("a"), k))
+			for i := 0; i < 2000; i++ {
+				if n, _, _, _, _ := tcell.VerifQueueLevels(s); n >= evCap {
+					break
+				}
+				runtime.Gosched()
+			}
+			stopSpin.Store(true)
+			pw.Wait()
+			for i := 0; i < 50; i++ {
+				runtime.Gosched()
+			}
+			if cat, w := shutdown("suspend"); cat != "" {
+				if cat == "inconclusive" {
+					return incon("Suspend: " + w)
+				}
+				return fail(cat, fmt.Sprintf("Suspend did not return (try %d of the race for the last queue slot): %s :: %s", try, w, sn.String()), true)
+			}
+			var rerr error
+			if cat, w := probe("Resume", func() { rerr = s.Resume() }); cat != "" || rerr != nil {
+				if cat == "inconclusive" {
+					return incon(w)
+				}
+				return fail("resume-after-race", fmt.Sprintf("%s %v", w, rerr), true)
+			}
+		}
+		return finalFini()
 	case "fini":
 		return finalFini()
 	case "suspend", "cycle":
@@ -653,6 +759,16 @@ func c06scenarios(r *core.Run) []c06scn {
 			add(c06scn{Kind: k, EvFill: 0, KeyFill: -1, Reader: "read", Conc: c, Sched: int64(1000 + len(out))})
 		}
 	}
+	for _, k := range kinds {
+		for rep := 0; rep < r.Pick(4, 40); rep++ {
+			add(c06scn{Kind: k, KeyFill: -1, Reader: "read", Conc: "none", PreResume: true})
+			add(c06scn{Kind: k, KeyFill: -1, Reader: "read", Conc: "none", Stall: true})
+			add(c06scn{Kind: k, KeyFill: -1, Reader: "read", Conc: "flood", Sched: int64(rep)})
+		}
+	}
+	for i := 0; i < r.Pick(12, 32); i++ {
+		add(c06scn{Kind: "racefill", EvFill: r.Pick(400, 3000), KeyFill: -1, Reader: "read", Conc: "none", Sched: int64(i % 2)})
+	}
 	// the real devTty on a pty under a SIGWINCH storm
 	for i := 0; i < r.Pick(6, 60); i++ {
 		add(c06scn{Kind: "pty", KeyFill: -1, Reader: "read", Conc: "resize", Sched: int64(i % 2 * (7000 + i))})
@@ -662,7 +778,7 @@ func c06scenarios(r *core.Run) []c06scn {
 	for i := 0; i < n; i++ {
 		rg := r.Rand("rand", i)
 		s := c06scn{Kind: kinds[rg.IntN(3)], EvFill: rg.IntN(cap + 1), KeyFill: -1, Reader: []string{"read", "read", "gate", "readerr"}[rg.IntN(4)],
-			Conc: []string{"none", "poller", "poster", "show", "resize"}[rg.IntN(5)], Sched: int64(1 + rg.IntN(1<<30)), DrainNil: rg.IntN(2) == 0}
+			Conc: []string{"none", "poller", "poster", "show", "resize", "flood"}[rg.IntN(6)], Sched: int64(1 + rg.IntN(1<<30)), DrainNil: rg.IntN(2) == 0}
 		if s.Conc != "none" {
 			s.EvFill = 0
 		} else if s.EvFill == cap && rg.IntN(2) == 0 {
@@ -683,7 +799,7 @@ func C06(r *core.Run) {
 		os.Exit(0)
 	}
 	r.Level = "fault_enumeration"
-	r.Rule = "fault enumeration over the state at shutdown on a real terminfo screen over the fake tty: event-queue fill 0..cap, and with the main loop parked on a full event queue, chunk-queue fill 0..cap plus 'reader parked on the next send' (levels read through the verif hook) x {Fini, Suspend, Suspend->Resume->Fini} x reader state {blocked in Read, held between Read and the queue send by a schedule-point gate, Read error at the next call, Read error with queues full} x concurrent actor {none, poller+input, poster, Show loop, resize storm}, then seeded randomised schedules through the schedule controller (yields/sleeps at the verif schedule points, interleaving recorded). Each scenario runs in a worker child process; the shutdown call runs on its own goroutine and is judged structurally: returned, or two goroutine dumps a second apart in which every tcell goroutine is parked in the same place (deadlock), or the draw step counter exceeding 4*w*h+16 (livelock). After Fini: no library goroutine left, PollEvent yields nil within queued+1 calls, ChannelEvents returns, a second Fini makes no tty call, 34 Screen methods return without panic; after Suspend the same methods return; after Resume a fed key and a resize are delivered. non-trivial = scenario executed to a verdict; distinct = distinct scenario descriptor (+ schedule signature)."
+	r.Rule = "fault enumeration over the state at shutdown on a real terminfo screen over the fake tty: event-queue fill 0..cap, and with the main loop parked on a full event queue, chunk-queue fill 0..cap plus 'reader parked on the next send' (levels read through the verif hook) x {Fini, Suspend, Suspend->Resume->Fini} x reader state {blocked in Read, held between Read and the queue send by a schedule-point gate, Read error at the next call, Read error with queues full} x concurrent actor {none, poller+input, poster, Show loop, resize storm, flood (posters + input, nobody polling)}, plus a redundant Resume() before the shutdown and a main loop held up past the escape timeout by a slow redraw with a partial sequence buffered, then seeded randomised schedules through the schedule controller (yields/sleeps at the verif schedule points, interleaving recorded). Each scenario runs in a worker child process; the shutdown call runs on its own goroutine and is judged structurally: returned, or two goroutine dumps a second apart in which every tcell goroutine is parked in the same place (deadlock), or the draw step counter exceeding 4*w*h+16 (livelock). After Fini: no library goroutine left, PollEvent yields nil within queued+1 calls, ChannelEvents returns, a second Fini makes no tty call, 34 Screen methods return without panic; after Suspend the same methods return; after Resume a fed key and a resize are delivered. non-trivial = scenario executed to a verdict; distinct = distinct scenario descriptor (+ schedule signature)."
 	r.Assumptions = []string{"liveness is restated as bounded progress: a call that has not returned is a violation only with a structural witness (all tcell goroutines parked identically in two dumps, or the draw step bound exceeded); a watchdog expiry alone is inconclusive", "schedule perturbations are placed only at channel operations and lock boundaries"}
 	scns := c06scenarios(r)
 	r.Set("scenarios", len(scns))
